@@ -50,7 +50,7 @@ static const PropSpec PROPS[] = {
     "an op landed within +-1 of the capacity boundary, or reserve(n) with n == capacity()" },
   { "C11", PR_C11 | PR_C01, RF_ALIAS_SHIFTED, 0, "alias", false, 0,
     "aliased element lies in the shifted part (i >= pos) or the aliasing call reallocated" },
-  { "C13", PR_C13 | PR_C01 | PR_C02 | PR_TRACE, RF_MEMMOVE_MID | RF_CONTIG_RANGE, 0, "mix", false, 0,
+  { "C13", PR_C13 | PR_C01 | PR_C02 | PR_TRACE | PR_TRACE_ALLOCS, RF_MEMMOVE_MID | RF_CONTIG_RANGE, 0, "mix", false, 0,
     "program contains a mid-sequence erase/insert (memmove paths) and a range op from a contiguous source (memcpy paths)" },
   { "C14", PR_C14 | PR_C01, RF_GEOMETRIC_EDGE, 0, "grow", false, 0,
     "a reallocating call whose required capacity was <= 1.5x the old capacity (where linear and geometric growth differ)" },
